@@ -11,6 +11,7 @@ import optrun
 import verdict
 
 PROBE = "fv_insert_lvalue_probe.cpp"
+MEMCHECK = driver.MEMCHECK
 
 
 def probe_insert_lvalue(tag="gasan"):
@@ -215,6 +216,21 @@ def run_all(tier, seed, tags=("gasan",), wrapper=(), jobs_filter=None):
             if len(total.samples) < 5 and r.samples and (job_kind(r) not in [job_kind2(x) for x in total.samples]):
                 total.samples.append(r.samples[0])
         total.stats["jobs:" + tag] += len(jobs)
+    # a small sample under valgrind memcheck on the uninstrumented build: a value that is used before it was
+    # initialised is invisible to ASan / UBSan
+    import shutil
+    if shutil.which("valgrind") and not jobs_filter:
+        exe = harness("plain", lvalue_ok)
+        scale = 1 if tier == "quick" else 8
+        mjobs = [("T", "rnd", 8, 30, 0, 250 * scale, 64, 1), ("M", "rnd", 8, 30, 0, 150 * scale, 64, 1),
+                 ("T", "exh", 2, 3, 0, 600 * scale, 256, 1), ("T", "rnd", 70, 40, 0, 40 * scale, 16, 0),
+                 ("T", "triv", 0, 0, 0, 1, 1, 0)]
+        for r in optrun.pmap(run_job, [(exe, j, seed, MEMCHECK) for j in mjobs]):
+            total.viol.extend(r.viol[:20])
+            total.crashes.extend(r.crashes[:10])
+            total.inconc.extend(r.inconc)
+            total.stats["sequences-under-memcheck"] += r.stats.get("sequences", 0)
+        total.stats["jobs:memcheck"] += len(mjobs)
     # a capacity beyond 2^32 elements (4 GiB of char): uninstrumented build, only with enough free memory
     try:
         avail = int([l for l in open("/proc/meminfo") if l.startswith("MemAvailable")][0].split()[1]) // 1024
